@@ -56,7 +56,7 @@ def run(spec, out):
 
     rng = random.Random(spec["seed"])
     nprng = np.random.default_rng(spec["seed"])
-    P = {"maxlen": spec["maxlen"]}
+    P = {"maxlen": spec["maxlen"], "dtype_p": 0.25}
     fams = G.FAMILIES + ["update"]
     for i in range(spec["n"]):
         case = G.generate(rng, nprng, family=rng.choice(fams), P=P)
